@@ -158,7 +158,9 @@ Proof.
   apply ratrecon_sound; lia.
 Qed.
 
-(* ---------------------------------------------------------------- RationalReconstruction(a,b,x,m,a_bound,b_bound) *)
+(* ---------------------------------------------------------------- RationalReconstruction(a,b,x,m,a_bound,b_bound)
+   the body with `bound = x/bb` (HISTORY once frag/C11.fix-2.diff is in /repo): the bound it guarantees is its own
+   max(x/b_bound, a_bound), NOT the caller's a_bound - see ProofsTotal.RR6_numbound_refuted / RR6f_sound *)
 Definition rr6_k (x a_bound b_bound : Z) : Z :=
   let bound := Z.quot x b_bound in if bound >? a_bound then bound else a_bound.
 
@@ -167,7 +169,7 @@ Definition RR6_sound := forall x m ab bb ok n d, 1 <= m -> 1 <= rr6_k x ab bb <=
   cong m n (d * x) /\ Z.abs n < rr6_k x ab bb /\ 0 < d <= bb /\ Z.gcd n d = 1.
 Lemma rr6_sound : RR6_sound.
 Proof.
-  intros x m ab bb ok n d Hm Hk. unfold RR6. fold (rr6_k x ab bb).
+  intros x m ab bb ok n d Hm Hk. unfold RR6. destruct (bb =? 0); [discriminate|]. fold (rr6_k x ab bb).
   destruct (ratrecon x m (rr6_k x ab bb) true) as [[[ok' a] b]|] eqn:E; [|discriminate].
   intros R; inversion R; subst; clear R. intros Hok.
   apply andb_true_iff in Hok. destruct Hok as [Hok Hb]. apply Z.leb_le in Hb.
